@@ -116,6 +116,17 @@ CHECKS: dict[str, dict[str, str]] = {
         "technique": "TLA+ BIP341 specification model-checked with TLC on small trees; recorded outputs/control blocks and altered proofs validated as traces",
         "design_ref": "DESIGN.md section 4 C12",
     },
+    "C13": {
+        "text": ("BIP39 (index coding, checksum, PBKDF2 seed with NFKD), Electrum (base-2048/1626 coding, version prefix with the 2fa word-count rule, seed) and SLIP-0039 "
+                 "(RS1024, share codec, GF(256) interpolation, digest share, Feistel cipher over PBKDF2, two-level recovery) are TLA+ specifications evaluated by TLC with "
+                 "SHA-2/HMAC/NFKD overrides. TLC splits a secret with the specification's own Split/Encode for 3-7 configurations, checks every qualifying selection in "
+                 "both orders, a wrong passphrase and a selection below threshold, and hands the shares to the implementation to recover (specification -> code). "
+                 "Recorded from the code and recomputed by TLC: sentences of 12 languages x 5 sizes, single-word substitutions, seeds under NFKD-sensitive passphrases, "
+                 "Electrum versions and integers in 12 languages, library-made SLIP39 shares of 4-6 secret lengths (recovery, wrong passphrase, below threshold, a changed "
+                 "word), and BIP85 entropy on every path whose derived key starts with a zero byte."),
+        "technique": "TLA+ BIP39/Electrum/SLIP-0039 specifications; TLC-made shares replayed into the implementation; recorded sentences, seeds, recoveries and BIP85 entropy validated as traces",
+        "design_ref": "DESIGN.md section 4 C13",
+    },
     "C16": {
         "text": ("BIP327 is specified generically in curve and hash; TLC runs a whole session (nonce round, signing round, verification of every partial signature, "
                  "aggregation, adaptor completion and extraction) on a toy curve of 31 points for EVERY choice of private keys incl. duplicates, every sequence of up "
